@@ -189,22 +189,28 @@ class System:
             trad.valid_peak_boolean_mask = np.array(masks[0][1])
         permuted = self._rebuilt(h, masks, list(reversed(range(self.nA)))) if self.nA > 1 else None
         fresh = self._fresh(h, masks)
+        zero_in_accepted = any(v == 0.0 for r in rows for v in r)
         for d in DISTS:
             exp = {}
             exp["mean_fn_frequency"] = RS.wmean(fs, weights, d)
             exp["mean_fn_amplitude"] = RS.wmean(am, weights, d)
-            exp["mean_curve"] = [RS.wmean([r[j] for r in rows], weights, d) for j in range(len(self.freq))]
+            curves_defined = not (d == "lognormal" and zero_in_accepted)    # log(0): outside the estimator's domain
+            if not curves_defined:
+                ctx.count("lognormal_curves_skipped_zero_amplitude_accepted")
+            if curves_defined:
+                exp["mean_curve"] = [RS.wmean([r[j] for r in rows], weights, d) for j in range(len(self.freq))]
             if spread_defined:
                 exp["std_fn_frequency"] = RS.wstd(fs, weights, d)
                 exp["std_fn_amplitude"] = RS.wstd(am, weights, d)
                 exp["cov_fn"] = RS.wcov(fs, am, weights, d)
-                exp["std_curve"] = [RS.wstd([r[j] for r in rows], weights, d) for j in range(len(self.freq))]
                 for n in (-1, 1, 2.5):
                     exp[f"nth_std_fn_frequency({n})"] = RS.wnth_std(n, fs, weights, d)
                     exp[f"nth_std_fn_amplitude({n})"] = RS.wnth_std(n, am, weights, d)
-                for n in (-1, 1, 2):
-                    exp[f"nth_std_curve({n})"] = [RS.wnth_std(n, [r[j] for r in rows], weights, d)
-                                                  for j in range(len(self.freq))]
+                if curves_defined:
+                    exp["std_curve"] = [RS.wstd([r[j] for r in rows], weights, d) for j in range(len(self.freq))]
+                    for n in (-1, 1, 2):
+                        exp[f"nth_std_curve({n})"] = [RS.wnth_std(n, [r[j] for r in rows], weights, d)
+                                                      for j in range(len(self.freq))]
             got_all = {}
             for name, args in ACCESSORS:
                 label = name if not args else f"{name}({args[0]})"
@@ -321,6 +327,10 @@ def roots(tier, seed):
     # histories that LOOK at the statistics between operations (caches), with manual re-acceptance,
     # and curve sets whose accepted windows all resonate at one frequency (true std exactly 0)
     same = [["p3", "p3", "p3"], ["p3", "p3", "p3"]]
+    # a window whose amplitude is exactly zero at some frequencies (a dead band): once rejected it must
+    # not influence anything (0 * log 0 must never enter a lognormal statistic)
+    out.append(dict(grid="lin", F=7, shapes_by_az=[["p3", "dead", "p4"], ["p2", "p3", "dead"]],
+                    depth=2 if tier == "quick" else 3, ops_subset="MA", reaccept=True))
     if tier == "quick":
         out.append(dict(grid="lin", F=7, shapes_by_az=[S[2][0], S[2][1]], depth=3, touch=True, reaccept=True,
                         ops_subset="MA"))
